@@ -153,3 +153,14 @@ contract(f"{B}::Node.apply_timestep", props=["C12"],
 from pyvc.contracts import scan  # noqa: E402
 from pyvc import scans as _scans  # noqa: E402
 scan("C12", "node-routes-gated", lambda: _scans.node_routes_gated({}))
+
+# ---- reset = a shutdown followed by an automatic start, also for a zero shut-down duration -------------------------------------------------
+contract(f"{B}::Node.reset", props=["C12"],
+         ensures=[("timed_shutdown_then_restart_flag", f"implies(old(self.operating_state) == {ON} and self.config.shut_down_duration > 0,"
+                                                       f" result == True and self.operating_state == {DOWN} and self.config.is_resetting == True)"),
+                  # with a zero shut-down duration the shutdown is over at once, so the automatic start has already begun
+                  ("instant_shutdown_restarts_at_once", f"implies(old(self.operating_state) == {ON} and self.config.shut_down_duration <= 0,"
+                                                        f" result == True and self.operating_state == ({ON} if self.config.start_up_duration <= 0 else {BOOT})"
+                                                        " and self.config.is_resetting == False)"),
+                  ("only_a_running_node_resets", f"implies(old(self.operating_state) != {ON}, result == False and unchanged())")],
+         modifies=NIC_MOD + SW_MOD + ["self.operating_state", "self.config.shut_down_countdown", "self.config.start_up_countdown", "self.config.is_resetting"])
